@@ -36,9 +36,11 @@ def audit(lines):
 
 def make():
     return LieProp('C01', ['identity', 'matrix', 'compose', 'mulassign', 'sqassign', 'mulassign_map', 'fcompose', 'finverse', 'compose3l', 'compose3r', 'inverse', 'act'],
-                   ['SmoothProps/C01.lean'], audit, TOL,
+                   ['SmoothProps/C01.lean', 'SmoothProps/C01Round.lean'], audit, TOL,
                    rule='harness/lie.cpp: per group type (6 catalogue families incl. Bundles) x scalar x 9 rotation-angle strata '
                         '(zero,tiny,switch,above_switch,small,generic,near_pi,beyond_pi,large) x 5 translation strata; '
                         'distinct_nontrivial counts distinct (op,group,scalar,stratum,input bits) with a non-zero input',
-                   assumptions=['IEEE rounding is audited against an exact rational oracle, not proved',
+                   assumptions=['IEEE rounding: proved in the standard model fl(x op y) = (x op y)(1+d), |d| <= u, no over/underflow '
+                                '(SmoothProps/C01Round.lean: SO2 C1 Tn SO3 SE2 SE3 composition and inverse); the standard model itself, '
+                                'Galilei/SE_K_3/Bundles and the actions are audited against an exact rational oracle, not proved',
                                 'Bundles outside the harness catalogue rely on the induction theorem about the model'])
